@@ -58,9 +58,10 @@ type counterparty struct {
 }
 
 type lcClient struct {
-	kind  string
-	cp    *counterparty
-	valid bool // installed from a well-formed (non-degenerate) proposal
+	tmHigh [2]uint64 // greatest (revision, height) seen as the client's latest height
+	kind   string
+	cp     *counterparty
+	valid  bool // installed from a well-formed (non-degenerate) proposal
 }
 
 type lcWorld struct {
@@ -161,6 +162,8 @@ func (LifecycleScenario) Generate(rng *rand.Rand, focus, tier string) kernel.Pla
 			add("update", name, 3*rng.Int63n(5))
 			add("block", 2)
 			add("update", name, 1+3*rng.Int63n(5))
+			add("block", 2)
+			add("update", name, 2+3*rng.Int63n(5))
 			add("block", 2)
 		}
 	}
@@ -440,6 +443,9 @@ func (w *lcWorld) opProposal(op kernel.Op) {
 			ol := old.last()
 			ns := &tmStub{chainID: fmt.Sprintf("peer-%d", old.rev+1), rev: old.rev + 1, pool: old.pool, blocks: map[int64]*stubBlock{}}
 			h0 := ol.h + 3
+			if op.Arg(3)%2 == 0 {
+				h0 = 2 + op.Arg(3)%5 // heights restart low in the new revision
+			}
 			ns.blocks[h0] = &stubBlock{h: h0, t: w.now, appHash: bytes.Repeat([]byte{byte(old.rev + 1)}, 32), vals: ol.next, next: ol.next}
 			ns.heights = []int64{h0}
 			p.kind, p.cp = "tm", &counterparty{kind: "tm", tm: ns, tmPrev: old}
@@ -630,6 +636,29 @@ func (w *lcWorld) opUpdate(op kernel.Op) {
 			desc: fmt.Sprintf("update %s to %d-%d trusting %d-%d of the previous revision", name, s.rev, b.h, old.rev, ol.h)})
 		return
 	}
+	if cl.kind == "tm" && cl.cp.tmPrev != nil && op.Arg(1)%3 == 2 {
+		// the relayer still delivers a header of the previous revision, anchored in that revision's last
+		// stored state: legitimate history, stored at its own height; the client keeps following the new revision
+		old := cl.cp.tmPrev
+		ol := old.last()
+		b := old.grow(w.r, w.now.Add(time.Second), 0, 0)
+		vs, keys, _ := old.valset(b.vals)
+		nvs, _, _ := old.valset(b.next)
+		hdr := node.MakeTMHeader(old.chainID, b.h, b.t, b.appHash, vs, nvs, keys, nil)
+		hdr.TrustedHeight = clienttypes.NewHeight(old.rev, uint64(ol.h))
+		tv, _, _ := old.valset(ol.next)
+		tp, _ := tv.ToProto()
+		hdr.TrustedValidators = tp
+		msg, err := clienttypes.NewMsgUpdateClient(name, hdr, w.relayer.Acc)
+		if err != nil {
+			return
+		}
+		w.now = w.now.Add(3 * time.Second)
+		w.rec.Fault("relayer.header_of_previous_revision")
+		w.mempool = append(w.mempool, &lcTx{kind: "oldrevupdate", signer: w.relayer, msgs: []sdk.Msg{msg}, upd: &lcUpd{name: name, cl: cl},
+			desc: fmt.Sprintf("update %s with %d-%d of the previous revision", name, old.rev, b.h)})
+		return
+	}
 	if cl.kind == "tm" {
 		cl.cp.tmMode = kernel.Mod(op.Arg(1), 4) % 3 // 0,1,2,0
 	}
@@ -670,7 +699,7 @@ func (w *lcWorld) block(n int) {
 			continue
 		}
 		var pre map[string]string
-		if tx.kind == "update" || tx.kind == "badupdate" {
+		if tx.kind == "update" || tx.kind == "badupdate" || tx.kind == "oldrevupdate" {
 			pre = w.clientPrefix(tx.upd.name)
 		}
 		res := w.host.DeliverTx(bz)
@@ -689,6 +718,13 @@ func (w *lcWorld) block(n int) {
 				w.props = append(w.props, tx.prop)
 				w.mempool = append(w.mempool, &lcTx{kind: "govvote", signer: w.gov, msgs: []sdk.Msg{node.VoteYesMsg(id, w.gov)}, desc: fmt.Sprintf("vote %d", id)})
 			}
+		case "oldrevupdate":
+			if w.clients[tx.upd.name] != tx.upd.cl {
+				continue
+			}
+			// accepted or not (completeness is not demanded here), the client must keep following the new revision
+			w.rec.Probe(fmt.Sprintf("update.previous_revision.ok=%v", ok))
+			w.checkTMLatest(tx.upd.name, tx.upd.cl, tx.desc)
 		case "badupdate":
 			if w.clients[tx.upd.name] != tx.upd.cl {
 				continue
@@ -708,6 +744,7 @@ func (w *lcWorld) block(n int) {
 				w.rec.SetNontrivial()
 				if cl.kind == "tm" {
 					w.checkTMUpdateMetadata(tx, pre, w.clientPrefix(tx.upd.name))
+					w.checkTMLatest(tx.upd.name, cl, tx.desc)
 				}
 			} else if !cl.valid {
 				w.rec.Probe("update.rejected_degenerate_client")
@@ -867,6 +904,24 @@ func (w *lcWorld) checkTMUpdateMetadata(tx *lcTx, pre, post map[string]string) {
 		}
 	}
 }
+
+// checkTMLatest (C07/C18): the latest height of a Tendermint client is the greatest height it accepted or
+// was installed at, revisions ordered before heights; it never goes back.
+func (w *lcWorld) checkTMLatest(name string, cl *lcClient, what string) {
+	cs, ok := w.host.App.XIBCKeeper.ClientKeeper.GetClientState(w.host.ReadCtx(), name)
+	if !ok {
+		return
+	}
+	h := cs.GetLatestHeight()
+	cur := [2]uint64{h.GetRevisionNumber(), h.GetRevisionHeight()}
+	if less(cur, cl.tmHigh) {
+		w.rec.Violate("C07", "latest_height_went_back", "tm", "after %s the latest height of %s is %d-%d, it was %d-%d before", what, name, cur[0], cur[1], cl.tmHigh[0], cl.tmHigh[1])
+		return
+	}
+	cl.tmHigh = cur
+}
+
+func less(a, b [2]uint64) bool { return a[0] < b[0] || a[0] == b[0] && a[1] < b[1] }
 
 func beU64(s string) uint64 {
 	var v uint64
